@@ -16,6 +16,10 @@ fn secp() -> &'static (Vec<[Vec<u8>; 3]>, Vec<[Vec<u8>; 3]>) {
     S.get_or_init(secp_valid)
 }
 
+pub fn secp_triples() -> &'static (Vec<[Vec<u8>; 3]>, Vec<[Vec<u8>; 3]>) {
+    secp()
+}
+
 fn q(d: &mut Dag, v: u32) -> u32 {
     let one = d.atom(&[1]);
     d.pair(one, v)
